@@ -49,6 +49,7 @@ func (m *Mutex) Unlock() {
 	}
 	m.held = false
 	vs.Event("Unlock", unsafe.Pointer(m), false, true)
+	vs.After("Unlock(done)", unsafe.Pointer(m))
 }
 
 // RWMutex mirrors sync.RWMutex.
@@ -73,6 +74,7 @@ func (m *RWMutex) Unlock() {
 	}
 	m.w = false
 	vs.Event("Unlock", unsafe.Pointer(m), false, true)
+	vs.After("Unlock(done)", unsafe.Pointer(m))
 }
 func (m *RWMutex) RLock() {
 	if !vs.Active() {
@@ -113,6 +115,9 @@ func (w *WaitGroup) Add(d int) {
 		panic("sync: negative WaitGroup counter")
 	}
 	vs.Event("wg.Add", unsafe.Pointer(w), false, true)
+	if d < 0 {
+		vs.After("wg.Done(done)", unsafe.Pointer(w))
+	}
 }
 func (w *WaitGroup) Done() { w.Add(-1) }
 func (w *WaitGroup) Wait() {
